@@ -104,7 +104,7 @@ check("C08", "exploration",
       "Judged at the commit of each relevant write (ordered write log): the claim finalizer is removed only when the bound XR is absent or (Background) already marked deleted, and absent under Foreground; "
       "a CRD delete by an XRD controller commits only with zero instances in the store and after SimEngine.Stop of the serving controller; during XRD teardown a controller is stopped only with zero instances; "
       "an XRD finalizer is removed only when its CRD is absent or not controlled by the XRD.",
-      TB + " Claimed here: claim/XR/XRD ordering. The composed-Usage clause is decided inside the C19 check (signature prefix C08/); the package-revision/lock clause is not decided yet. Bounded liveness of teardown is counted, not judged.",
+      TB + " Claimed here: claim/XR/XRD ordering. The composed-Usage clause is decided inside the C19 check and the package-revision/lock clause inside the C17 check (signature prefix C08/ in both). Bounded liveness of teardown is counted, not judged.",
       "deterministic simulation with fault injection: seeded schedule/fault/crash search, ordering oracles over the committed write log and engine stop events",
       "§7 C08")
 
@@ -136,6 +136,16 @@ check("C16", "exploration",
       TB + " Ownership conflicts between two Crossplane packages arise only by chance of the drawn object names.",
       "deterministic simulation with fault injection: seeded schedule/fault/crash search; per-reconcile oracle over the write/read log, ownership invariants after successful reconciles, garbage-collector actor",
       "§7 C16")
+
+check("C17", "exploration",
+      "Seeded deterministic simulation of W-pkg with the real dependency resolver (resolver.Reconciler), the real revision reconcilers with PackageDependencyManager and both DAG implementations, and the real package managers, over a simulated registry whose repositories list unsorted, partly non-semver tags and gain tags during the run. "
+      "Random dependency graphs over 2-4 repositories (diamonds, self loops, cycles), per-version dependencies, constraint strings drawn from ranges, exact versions, digests, invalid and unsatisfiable ones; upgrade/downgrade options drawn per run; API and registry faults and crashes. "
+      "Judged at every package create/update the resolver commits, against the Lock and the tag list that very reconcile read: no write while an independent DFS finds a cycle in that Lock; some package in the Lock depends on the repository; an installed version equals the pinned digest or is the maximum tag satisfying one parent's constraint (recomputed with Masterminds/semver); "
+      "a moved version is the lowest not-older tag satisfying every parent, or with downgrades the highest satisfying one. At every revision status write that turns Healthy with dependency resolution on: every direct dependency is in the Lock at a version satisfying its constraint and the transitive closure is present. "
+      "Also decides C08's lock clause: a revision loses its finalizer only when the Lock no longer lists it (packages are deleted during the run; the garbage collector is an actor).",
+      TB + " NOT decided: the quantifier's 'every directed graph on up to N packages exhaustively' (graphs are sampled, which is the technique's limit). Observed but outside the statement: with upgrades enabled the resolver panics (semver.MustParse) on a dependency installed by digest or non-semver tag.",
+      "deterministic simulation with fault injection: seeded graph/constraint/tag-list/fault search; every resolver write and healthy transition judged against an independent recomputation over what the reconcile read",
+      "§7 C17")
 
 def main():
     props = [json.loads(l)["id"] for l in open(os.path.join(V, "properties.jsonl"))]
